@@ -216,9 +216,40 @@ def clone_deref(I, st, fr, t, a):
 
 
 @summary('<I as std::iter::IntoIterator>::into_iter', 'std::hint::must_use', 'std::convert::identity',
-         '<T as std::convert::Into<U>>::into', '<T as std::convert::From<T>>::from')
+         '<T as std::convert::From<T>>::from')
 def identity(I, st, fr, t, a):
     return a[0], st
+
+
+@summary('<T as std::convert::Into<U>>::into')
+def into_conv(I, st, fr, t, a):
+    # the blanket impl calls <U as From<T>>::from: the identity only when T == U, otherwise the local conversion
+    args = ((t.get('res') or {}).get('args') or '').strip('[]')
+    parts = [x.strip() for x in _split_top(args)]
+    if len(parts) == 2 and parts[0] == parts[1]:
+        return a[0], st
+    if len(parts) == 2:
+        k = '<%s as std::convert::From<%s>>::from' % (parts[1], parts[0])
+        if k in I.fns:
+            return I.call_local(k, [a[0]], st)
+    raise from_undecided()('Into::into between %s: conversion not modelled' % (args,))
+
+
+def _split_top(s):
+    out, depth, cur = [], 0, ''
+    for ch in s:
+        if ch in '<([':
+            depth += 1
+        elif ch in '>)]':
+            depth -= 1
+        if ch == ',' and depth == 0:
+            out.append(cur)
+            cur = ''
+        else:
+            cur += ch
+    if cur.strip():
+        out.append(cur)
+    return out
 
 
 @summary('<std::vec::Vec<T, A> as std::ops::Deref>::deref', '<std::vec::Vec<T, A> as std::ops::DerefMut>::deref_mut',
@@ -308,22 +339,71 @@ def count_ones(I, st, fr, t, a):
 
 
 # ------------------------------------------------------------------ comparisons on local types
+def _manual_impl(I, v, trait, method):
+    """local hand-written impl of `trait::method` for the type of value v (None when derived or absent)"""
+    ty = getattr(v, 'ty', None)
+    if not isinstance(v, (Enum, Struct)) or not ty or ty.startswith(('$', 'std::', 'tuple', 'closure:')):
+        return None
+    base = ty.split('<')[0]
+    for cand in (ty, base):
+        k = '<%s as %s>::%s' % (cand, trait, method)
+        f = I.fns.get(k)
+        if f is not None:
+            return None if f.get('derived') else k
+    return None
+
+
+_ORD_OK = {'gt': (2,), 'ge': (1, 2), 'lt': (0,), 'le': (0, 1)}     # Ordering: 0 Less, 1 Equal, 2 Greater
+
+
+def _ordering_to_bool(I, op, v):
+    if isinstance(v, Ite):
+        return I.merge(v.c, _ordering_to_bool(I, op, v.a), _ordering_to_bool(I, op, v.b))
+    if isinstance(v, Enum) and v.ty.startswith('std::option::Option'):
+        if v.var == 0:
+            return FALSE
+        return _ordering_to_bool(I, op, v.fields[0])
+    if isinstance(v, Enum) and v.ty.startswith('std::cmp::Ordering'):
+        return TRUE if v.var in _ORD_OK[op] else FALSE
+    raise from_undecided()('result of a hand-written partial_cmp is not a decidable Ordering: %r' % (v,))
+
+
 def _cmp_values(I, st, op, x, y):
     x, y = I.deref(st, x), I.deref(st, y)
-    return _cmp_core(I, op, x, y)
+    return _cmp_core(I, op, x, y, st)
 
 
-def _cmp_core(I, op, x, y):
+def _cmp_core(I, op, x, y, st=None):
     if isinstance(x, Ite):
-        return I.merge(x.c, _cmp_core(I, op, x.a, y), _cmp_core(I, op, x.b, y))
+        return I.merge(x.c, _cmp_core(I, op, x.a, y, st), _cmp_core(I, op, x.b, y, st))
     if isinstance(y, Ite):
-        return I.merge(y.c, _cmp_core(I, op, x, y.a), _cmp_core(I, op, x, y.b))
+        return I.merge(y.c, _cmp_core(I, op, x, y.a, st), _cmp_core(I, op, x, y.b, st))
+    # a hand-written PartialEq / PartialOrd decides the comparison, not the structure of the value
+    if op in ('eq', 'ne'):
+        k = _manual_impl(I, x, 'std::cmp::PartialEq', 'eq')
+    else:
+        k = _manual_impl(I, x, 'std::cmp::PartialOrd', 'partial_cmp')
+    if k is not None:
+        if st is None:
+            raise from_undecided()('comparison through the hand-written %s outside a state' % k)
+        cx = ('static', 'cmpx:%d' % next(I.frame_counter))
+        cy = ('static', 'cmpy:%d' % next(I.frame_counter))
+        st.store[cx], st.store[cy] = x, y
+        r, st2 = I.call_local(k, [Ref(cx), Ref(cy)], st)
+        if st2 is None:
+            raise from_undecided()('hand-written %s diverges' % k)
+        I.ev('manual-cmp', k, None, op)
+        if op == 'eq':
+            return r
+        if op == 'ne':
+            return boolv(B.bnot(r.bits[0]))
+        return _ordering_to_bool(I, op, r)
     if op in ('eq', 'ne'):
         bit = I.eq_bit(x, y)
         if bit is None:
             raise from_undecided()('eq of %r %r' % (x, y))
         return boolv(bit if op == 'eq' else B.bnot(bit))
-    # ordering: fieldless enums by discriminant, ints by value
+    # ordering: fieldless enums by discriminant (derived impls), ints by value
     if isinstance(x, Enum) and isinstance(y, Enum) and not x.fields and not y.fields:
         dx, dy = I.discr_val(x.ty, x.var), I.discr_val(y.ty, y.var)
         r = {'gt': dx > dy, 'ge': dx >= dy, 'lt': dx < dy, 'le': dx <= dy}[op]
@@ -654,6 +734,8 @@ def iter_collect(I, st, fr, t, a):
 def item_eq_bit(I, st, item, x):
     """Bit: does this Seq item contain value x (already dereferenced)?"""
     if item[0] == 'elem':
+        if _manual_impl(I, x, 'std::cmp::PartialEq', 'eq') is not None:
+            return _cmp_core(I, 'eq', I.deref(st, item[1]), x, st).bits[0]
         e = I.eq_bit(I.deref(st, item[1]), x)
         if e is None:
             raise from_undecided()('eq in contains')
@@ -1181,32 +1263,15 @@ def regex_new(I, st, fr, t, a):
 
 
 def regex_pattern_ok(p):
-    """Syntactic validity check of the small fragment used: literals, classes, escapes \\s \\d, groups, ^, +, *."""
-    depth = 0
-    i = 0
-    in_class = False
-    while i < len(p):
-        c = p[i]
-        if c == '\\':
-            if i + 1 >= len(p) or p[i + 1] not in 'sdwSDW.()[]|\\+*?^$':
-                return False
-            i += 2
-            continue
-        if in_class:
-            if c == ']':
-                in_class = False
-        elif c == '[':
-            in_class = True
-        elif c == '(':
-            depth += 1
-        elif c == ')':
-            depth -= 1
-            if depth < 0:
-                return False
-        elif c in '{}':
-            return False
-        i += 1
-    return depth == 0 and not in_class
+    """The constant pattern is inside the fragment read by analysis/regex_lite.py (so it compiles in the regex crate too)."""
+    from . import regex_lite
+    try:
+        regex_lite.compile(p)
+        return True
+    except regex_lite.Unsupported:
+        return False
+    except Exception:
+        return False
 
 
 def mandatory_groups(p):
@@ -1257,6 +1322,7 @@ def captures_get(I, st, fr, t, a):
     cap = I.deref(st, a[0])
     ty = ret_ty(I, fr, t) or OPT
     k = a[1]
+    I.ev('captures-get', fr.fname if fr else None, t.get('at'), k.uval() if isinstance(k, BV) and k.known() else None)
     if isinstance(cap, Struct) and cap.ty == '$Captures' and cap.fields[0] is not None and isinstance(k, BV) and k.known():
         if k.uval() == 0 or k.uval() in mandatory_groups(cap.fields[0]):
             return some(Tok('match%d' % next(I.frame_counter), None), ty), st
@@ -1575,6 +1641,33 @@ def wrapping_add(I, st, fr, t, a):
     return I.binop('Add', a[0], a[1]), st
 
 
+@summary('std::char::methods::<impl char>::is_uppercase', 'core::char::methods::<impl char>::is_uppercase')
+def char_is_uppercase(I, st, fr, t, a):
+    v = a[0]
+    if isinstance(v, Ref):
+        v = I.deref(st, v)
+    if isinstance(v, BV) and v.known():
+        return (TRUE if chr(v.uval()).isupper() else FALSE), st
+    return typed_opaque(I, st, fr, t, a)
+
+
+def _wrapping(op):
+    def h(I, st, fr, t, a):
+        x, y = a[0], a[1]
+        if isinstance(x, BV) and isinstance(y, BV) and x.known() and y.known():
+            w = x.w
+            v = {'add': x.uval() + y.uval(), 'sub': x.uval() - y.uval(), 'mul': x.uval() * y.uval()}[op]
+            return BV.const(v & ((1 << w) - 1), w), st
+        w = getattr(x, 'w', 64)
+        return Term('wrapping', (op, x, y), w), st
+    return h
+
+
+for _ty in ('u8', 'u16', 'u32', 'u64', 'usize', 'u128', 'i32', 'i64'):
+    for _op in ('add', 'sub', 'mul'):
+        TABLE['core::num::<impl %s>::wrapping_%s' % (_ty, _op)] = _wrapping(_op)
+
+
 @summary('core::num::<impl u64>::leading_zeros', 'core::num::<impl u32>::leading_zeros', 'core::num::<impl usize>::leading_zeros')
 def leading_zeros(I, st, fr, t, a):
     v = a[0]
@@ -1686,7 +1779,8 @@ _prev_to_string = None
 
 def to_string2(I, st, fr, t, a):
     v = I.deref(st, a[0]) if isinstance(a[0], Ref) else a[0]
-    if isinstance(v, Term) and v.w == 32 and v.hi <= 0x10FFFF and (t.get('res') or {}).get('args', '').strip('[]') == 'char':
+    if ((isinstance(v, Term) and v.w == 32 and v.hi <= 0x10FFFF) or (isinstance(v, BV) and v.w == 32 and v.known())) \
+            and (t.get('res') or {}).get('args', '').strip('[]') == 'char':
         cell = ('static', 'charstr:%d' % next(I.frame_counter))
         I.static_cells[cell] = Struct('$charstr', (v,))
         st.store[cell] = I.static_cells[cell]
@@ -1719,3 +1813,32 @@ def str_parse2(I, st, fr, t, a):
 
 
 TABLE['core::str::<impl str>::parse'] = str_parse2
+
+
+# ---- chars() of a one-character string is that character
+def str_chars(I, st, fr, t, a):
+    v = I.deref(st, a[0]) if isinstance(a[0], Ref) else a[0]
+    if isinstance(v, Struct) and v.ty == '$charstr':
+        cell = ('static', 'chars:%d' % next(I.frame_counter))
+        st.store[cell] = Seq([('elem', v.fields[0])])
+        return Struct('$SliceIter', (Ref(cell), 0, 'owned')), st
+    return typed_opaque(I, st, fr, t, a)
+
+
+TABLE['core::str::<impl str>::chars'] = str_chars
+
+
+@summary('std::result::Result::<T, E>::is_ok', 'std::result::Result::<T, E>::is_err')
+def res_is_ok(I, st, fr, t, a):
+    want_ok = (t.get('res') or {}).get('path', '').endswith('is_ok')
+    v = I.deref(st, a[0]) if isinstance(a[0], Ref) else a[0]
+
+    def conv(x):
+        if isinstance(x, Ite):
+            return I.merge(x.c, conv(x.a), conv(x.b))
+        if isinstance(x, Enum):
+            return TRUE if (x.var == 0) == want_ok else FALSE
+        d = I.discr(x)
+        bit = d.bits[0]          # 1 = Err
+        return boolv(B.bnot(bit) if want_ok else bit)
+    return conv(v), st
